@@ -3,7 +3,7 @@
     repo ids < 2^32 (uint32 keys), IndexTimeUnix within int64. Lists stand for Go maps in iteration order
     (any order, duplicates allowed: the statements are list equalities, hence hold for the map views
     canon_map / canon_set as well). *)
-From ZV Require Import Lib.Base Model.Codec Proofs.CodecCost Proofs.CodecRT.
+From ZV Require Import Lib.Base Model.Codec Model.CodecOld Proofs.CodecCost Proofs.CodecRT Proofs.CodecOld.
 Open Scope N_scope.
 
 (** encoding/binary: Uvarint reads back what PutUvarint wrote, for every uint64, in front of any suffix *)
@@ -69,6 +69,25 @@ Proof.
 Qed.
 Print Assumptions C26_decode_bounded.
 
+(** ---- the defect that was repaired (fix 86d5ebb), on the faithful model of the OLD stringSetDecode
+    (Model/CodecOld.v): no linear bound exists — for every constant c below 2^59 there is an input of at most
+    11 bytes on which the old decoder takes more than c*(|b|+1) steps and requests more than c*(|b|+1) map slots;
+    and some input makes it panic. *)
+Theorem C26_decode_bounded_refuted : forall c : N, c < 2 ^ 59 ->
+  exists b : bytes, (length b <= 11)%nat
+    /\ c * (nlen b + 1) < osteps (old_dec_set b) /\ c * (nlen b + 1) < oalloc (old_dec_set b).
+Proof.
+  intros c Hc. exists (1 :: put_uvarint (12 * c + 1)).
+  assert (Hk : 12 * c + 1 < 2 ^ 63) by (change (2 ^ 59) with 576460752303423488 in Hc; change (2 ^ 63) with 9223372036854775808; lia).
+  destruct (old_dec_set_unbounded (12 * c + 1) Hk) as (L & S & A & _). cbv zeta in *.
+  split; [exact L|]. unfold nlen. split; nia.
+Qed.
+Print Assumptions C26_decode_bounded_refuted.
+
+Theorem C26_decode_total_refuted : exists b : bytes, opanic (old_dec_set b) = true.
+Proof. exists [1;1;255;255;255;255;255;255;255;255;255;1;97;98]. vm_compute. reflexivity. Qed.
+Print Assumptions C26_decode_total_refuted.
+
 (** ---- non-vacuity *)
 Example C26_ex_set : dec_set (enc_set [[104;105]; []; [195;169]]) = Ok [[104;105]; []; [195;169]]
   /\ enc_set [[104;105]; []; [195;169]] = [1;3;2;104;105;0;2;195;169].
@@ -99,3 +118,7 @@ Example C26_ex_neg_len : dec_set [1;1;255;255;255;255;255;255;255;255;255;1;97;9
 Proof. vm_compute. reflexivity. Qed.
 Example C26_ex_uvarint : uvarint (put_uvarint 18446744073709551615 ++ [7]) = (18446744073709551615, 10%Z).
 Proof. vm_compute. reflexivity. Qed.
+(** the old decoder on the hostile 10-byte input of DESIGN §6: count 2^63-1 accepted, 2^63-1 map slots requested
+    (the loop itself cannot be run here) — compare C26_ex_hostile for the repaired decoder *)
+Example C26_ex_old_small : osteps (old_dec_set [1;232;7]) = 1002 /\ oerr (old_dec_set [1;232;7]) = false.
+Proof. vm_compute. split; reflexivity. Qed.
